@@ -73,7 +73,7 @@ impl Property for C05 {
         vec!["programs live in uncontended RAM (0x8000-0xBFFF), so instruction times are the documented ones (C03) and independent of C04", "kinds 0-2 use programs in uncontended RAM; kind 3 (lock-step) runs arbitrary code and relies on RefULA for contention: a clock difference inside a frame is left to C04, a register difference to C01/C06 (the pair is re-synchronised)"]
     }
     fn expected_probes(&self) -> Vec<&'static str> {
-        vec!["halted_di_program", "overrun_nonzero", "max_mode_call", "breakpoint_call", "multi_frame_call", "window_edge_31_32", "frame_end_step", "lockstep_frame_crossed", "lockstep_interrupt", "tape_error_survived"]
+        vec!["halted_di_program", "overrun_nonzero", "max_mode_call", "breakpoint_call", "multi_frame_call", "window_edge_31_32", "frame_end_step", "lockstep_frame_crossed", "lockstep_interrupt", "tape_error_survived", "snapshot_saved_between_calls"]
     }
 
     fn gen(&self, rng: &mut Rng, tier: Tier, idx: u64) -> Scenario {
@@ -102,6 +102,7 @@ impl Property for C05 {
                 sc.set("r0", if rng.chance(1, 3) { rng.range(0, 69000) } else { 0 });
                 sc.set("tape_err", if rng.chance(1, 4) { rng.range(1, 2) } else { 0 });
                 sc.set("tape_at", rng.range(0, 3));
+                sc.set("saves", rng.chance(1, 3) as i64);
                 // slicing: list of calls until K frames are done
                 let mut left = k;
                 while left > 0 {
@@ -215,6 +216,12 @@ impl Property for C05 {
                         drive(&mut e, slice, &mut rng).map_err(|x| Fail::new("C05.drive", "", x))?
                     };
                     call_no += 1;
+                    // the host takes a snapshot between two calls: no emulated time passes
+                    if sc.get("saves") != 0 && (op.arg(3) >> 3) & 1 == 1 {
+                        ctx.probe("snapshot_saved_between_calls");
+                        let (rec, _out) = crate::host::SimRecorder::new(crate::host::RecorderPlan::default());
+                        e.save_snapshot(rustzx_core::host::SnapshotRecorder::Sna(rec)).map_err(|x| Fail::new("C05.save_snapshot", "", format!("{:?}", x)))?;
+                    }
                     frames += done as i64;
                     ctx.sim_t += (done as i64 * f) as u64;
                     // accounting at this host-visible frame boundary
